@@ -153,11 +153,69 @@ func c17Registration(c *core.Ctx, s string) {
 		if pn == nil {
 			c.Violation("C17/register-dup-tag", fmt.Sprintf("Handle(%q) accepted a pattern with a duplicated placeholder name", s), map[string]interface{}{"pattern": s})
 		}
-		return
-	}
-	if pn != nil {
+	} else if pn != nil {
 		sig := "C17/register-rejects-valid:" + c17Shape(s)
 		c.Violation(sig, fmt.Sprintf("Handle(%q) panicked (%v) although the pattern is valid", s, pn), map[string]interface{}{"pattern": s, "panic": fmt.Sprint(pn)})
+	}
+	// the verdict does not depend on what was registered before: the same pattern on a Mux
+	// that already holds handlers sharing every placeholder position with it (other tag
+	// names, anonymous placeholders, a deeper literal), directly and through a mounted Mux
+	toks := ref.Tokens(s)
+	hasPH := false
+	for _, t := range toks {
+		if k := ref.ClassifyToken(t); k == ref.TokTag || k == ref.TokAnon {
+			hasPH = true
+		}
+	}
+	if !hasPH {
+		return
+	}
+	if ref.ClassifyToken(toks[len(toks)-1]) == ref.TokFull {
+		toks = toks[:len(toks)-1]
+	}
+	renamed, anon := make([]string, len(toks)), make([]string, len(toks))
+	for i, t := range toks {
+		renamed[i], anon[i] = t, t
+		if k := ref.ClassifyToken(t); k == ref.TokTag || k == ref.TokAnon {
+			renamed[i], anon[i] = fmt.Sprintf("$shadow%d", i), "*"
+		}
+	}
+	shadows := []string{strings.Join(renamed, ".") + ".shadow", strings.Join(anon, ".") + ".shadow.deeper"}
+	for _, mounted := range []bool{false, true} {
+		m, target := res.NewMux(""), s
+		var prep interface{}
+		if mounted {
+			sub := res.NewMux("")
+			prep = try(func() {
+				for _, sh := range shadows {
+					sub.Handle(sh)
+				}
+				m.Mount("sub", sub)
+			})
+			target = "sub." + s
+		} else {
+			prep = try(func() {
+				for _, sh := range shadows {
+					m.Handle(sh)
+				}
+			})
+		}
+		if prep != nil {
+			c.Violation("C17/register-rejects-valid:shadow", fmt.Sprintf("registering %q panicked (%v) although the patterns are valid", shadows, prep), map[string]interface{}{"patterns": shadows, "mounted": mounted})
+			return
+		}
+		pn := try(func() { m.Handle(target) })
+		c.Obs("registrations_on_populated_mux", 1)
+		w := map[string]interface{}{"pattern": target, "registered_before": shadows, "through_mounted_mux": mounted}
+		if dup && pn == nil {
+			c.Violation("C17/register-dup-tag:after-earlier-registrations", fmt.Sprintf("Handle(%q) accepted a pattern with a duplicated placeholder name on a Mux that already held %q", target, shadows), w)
+			return
+		}
+		if !dup && pn != nil {
+			w["panic"] = fmt.Sprint(pn)
+			c.Violation("C17/register-rejects-valid:after-earlier-registrations", fmt.Sprintf("Handle(%q) panicked (%v) on a Mux that already held %q although the pattern is valid and distinct from them", target, pn, shadows), w)
+			return
+		}
 	}
 }
 
@@ -527,5 +585,31 @@ func c17Transformer(c *core.Ctx, r *rand.Rand) {
 	back := tr.RIDToID(rid, mh.Params)
 	if back != id {
 		c.Violation("C17/transformer-roundtrip", fmt.Sprintf("id %q -> rid %q -> id %q", id, rid, back), map[string]interface{}{"id": id, "pattern": pattern, "rid": rid, "back": back})
+	}
+	// the same round trip with the pattern a handler is told at registration (what a store
+	// handler feeds the transformer with), the tree of Mux values being put together
+	// bottom-up and attached to the service last
+	toks := ref.Tokens(strings.TrimPrefix(pattern, "svc."))
+	inner, mid, svc := res.NewMux(""), res.NewMux(""), res.NewService("svc")
+	var told []string
+	if pn := try(func() {
+		inner.AddHandler(strings.Join(toks, "."), res.Handler{OnRegister: func(_ *res.Service, p res.Pattern, _ res.Handler) { told = append(told, string(p)) }})
+		mid.Mount("sub", inner)
+		svc.Mount("lib", mid)
+	}); pn != nil {
+		c.Violation("C17/transformer-register", fmt.Sprintf("registering %q bottom-up panicked: %v", pattern, pn), map[string]interface{}{"pattern": pattern})
+		return
+	}
+	full := "svc.lib.sub." + strings.Join(toks, ".")
+	c.Obs("transformer_roundtrips_registered_pattern", 1)
+	if len(told) != 1 || told[0] != full {
+		c.Violation("C17/registered-pattern", fmt.Sprintf("the handler registered (bottom-up) as %q was told %q by OnRegister", full, told), map[string]interface{}{"pattern": full, "told": told})
+		return
+	}
+	rid2 := tr.IDToRID(id, nil, res.Pattern(told[0]))
+	var mh2 *res.Match
+	if pn := try(func() { mh2 = svc.GetHandler(rid2) }); pn != nil || mh2 == nil || tr.RIDToID(rid2, mh2.Params) != id {
+		c.Violation("C17/transformer-roundtrip:registered-pattern", fmt.Sprintf("id %q -> rid %q (pattern %q as told to OnRegister) is not routed back to the id", id, rid2, told[0]),
+			map[string]interface{}{"id": id, "pattern": told[0], "rid": rid2})
 	}
 }
